@@ -889,7 +889,9 @@ class EClass(EClassifier):
         elif notif.kind in (Kind.REMOVE, Kind.REMOVE_MANY):
             removed = [notif.old] if notif.kind is Kind.REMOVE else notif.old
             for feature in removed:
-                delattr(self.python_class, feature.name)
+                name = (feature.normalized_name()
+                        if isinstance(feature, EOperation) else feature.name)
+                delattr(self.python_class, name)
             if notif.feature is EClass.eStructuralFeatures:
                 self._drop_stale_holders()
         elif notif.feature is EClass.eOperations:
